@@ -48,6 +48,13 @@ var faultFlows = []faultFlow{
 			return r
 		}, "https://web.sim/callback", nil
 	}},
+	{"authorize-unregistered-uri", always, func(w *world.World, b *world.Browser, ch *kernel.Chooser) (func() *world.Resp, string, error) {
+		// the redirect URI is not registered: whatever fails, nothing may be redirected there (redirect = "" admits no redirect at all)
+		return func() *world.Resp {
+			_, r := startAuthz(w, b, flowOpts{client: "web", redirect: "https://attacker.example/cb"})
+			return r
+		}, "", nil
+	}},
 	{"authorize-with-hint", always, func(w *world.World, b *world.Browser, ch *kernel.Chooser) (func() *world.Resp, string, error) {
 		s, err := codeFlow(w, b, flowOpts{client: "web"})
 		if err != nil {
